@@ -3596,6 +3596,82 @@ fn inline_replay<T: DiffableStr + ?Sized>(ctx: &mut Ctx, line: &str, dl: Option<
     inline_answer(&r)
 }
 
+/// `harness search <request>` for text-level requests (`text`, `helper`): the two texts of the request, amplified (repeated,
+/// behind a long shared head, in front of a shared tail, line by line made ASCII) and run through EVERY tokenizer, mode and
+/// algorithm with all text-level validators (C04 C02 C09 C11 C03 C12 C13 C14 C20), the unified-diff validators (C05), the
+/// inline validators (C16) and the remapper / helper validators (C17) on the IMPLEMENTATION. See `algs::search`.
+pub fn search(line: &str, ctx: &mut Ctx) {
+    let parts: Vec<&str> = line.split('|').map(|s| s.trim()).collect();
+    if parts.len() < 3 {
+        return;
+    }
+    let (old, new) = match (unhex(parts[1]), unhex(parts[2])) {
+        (Some(o), Some(n)) => (o, n),
+        _ => return,
+    };
+    let rep = |v: &[u8], k: usize| -> Vec<u8> { (0..k).flat_map(|_| v.iter().copied()).collect() };
+    let numbered = |k: usize, tag: &str| -> Vec<u8> { (0..k).map(|i| format!("{}{} \n", tag, i)).collect::<String>().into_bytes() };
+    let mut variants: Vec<(Vec<u8>, Vec<u8>)> = vec![(old.clone(), new.clone()), (new.clone(), old.clone())];
+    for k in [2usize, 5, 30, 130] {
+        if (old.len() + new.len()) * k <= 60_000 {
+            variants.push((rep(&old, k), rep(&new, k)));
+            variants.push((rep(&old, k), rep(&new, k + 1)));
+        }
+    }
+    for h in [2usize, 60, 130, 4200] {
+        let head = numbered(h, "h");
+        let tail = numbered(h, "t");
+        variants.push(([&head[..], &old[..]].concat(), [&head[..], &new[..]].concat()));
+        variants.push(([&old[..], &tail[..]].concat(), [&new[..], &tail[..]].concat()));
+        variants.push(([&head[..], &old[..], &tail[..]].concat(), [&head[..], &new[..], &tail[..]].concat()));
+    }
+    let mut idx = 0u64;
+    for (o, n) in variants {
+        let big = o.len() + n.len() > 20_000;
+        for kind in Kind::DIFF {
+            if big && kind != Kind::Lines {
+                continue;
+            }
+            for alg in ALGS {
+                if alg == Algorithm::Lcs && big {
+                    continue;
+                }
+                idx += 1;
+                let c = TextCfg { kind, alg, nlt: None, dl: if idx % 4 == 0 { Some(idx % 7) } else { None } };
+                if big {
+                    for mode in [Mode::Bytes, Mode::Str] {
+                        if mode == Mode::Str && !(is_utf8(&o) && is_utf8(&n)) {
+                            continue;
+                        }
+                        let req = text_request(&c, mode, &o, &n);
+                        match text_eval_mode(&c, DlHow::Deadline, mode, &o, &n) {
+                            None => ctx.violation("C04", &req, "the text diff panicked".to_string()),
+                            Some(e) => check_text(ctx, &req, &c, &o, &n, &e),
+                        }
+                    }
+                } else {
+                    text_pair(ctx, &c, &o, &n, idx);
+                    let mode = if is_utf8(&o) && is_utf8(&n) && idx % 2 == 0 { Mode::Str } else { Mode::Bytes };
+                    remap_case(ctx, kind, alg, mode, &o, &n);
+                }
+            }
+        }
+        if !big {
+            for (radius, hdr) in [(0usize, false), (1, true), (3, false)] {
+                let uc = UCfg { alg: ALGS[(idx % 3) as usize], radius, hdr, hint: true, writer: true, nlt: None };
+                let mode = if is_utf8(&o) && is_utf8(&n) { Mode::Str } else { Mode::Bytes };
+                udiff_case(ctx, &uc, mode, &o, &n);
+                udiff_case(ctx, &uc, Mode::Bytes, &o, &n);
+            }
+            let mode = if is_utf8(&o) && is_utf8(&n) { Mode::Str } else { Mode::Bytes };
+            inline_pair_mode(ctx, ALGS[(idx % 3) as usize], mode, &o, &n, &[None, Some(1)]);
+        }
+        if ctx.violations.iter().filter(|v| v.known.is_none()).count() >= 40 {
+            break;
+        }
+    }
+}
+
 pub fn replay(line: &str) {
     let parts: Vec<&str> = line.split('|').map(|s| s.trim()).collect();
     let hd: Vec<&str> = parts[0].split_whitespace().collect();
